@@ -2912,6 +2912,49 @@ func catchesAll(fn *ssa.Function) bool {
 	return false
 }
 
+// ctePanicIn: fn itself contains panic(ContextTerminationError).
+func (g *EffGraph) ctePanicIn(f *ssa.Function) (string, bool) {
+	for _, b := range f.Blocks {
+		for _, in := range b.Instrs {
+			if p, ok := in.(*ssa.Panic); ok {
+				if mi, ok := p.X.(*ssa.MakeInterface); ok && g.isCTE(mi.X.Type()) {
+					return "panic(ContextTerminationError) at " + relPos(g.eng, g.eng.fset.Position(p.Pos())), true
+				}
+			}
+		}
+	}
+	return "", false
+}
+
+// safeCatcher: fn catches everything its callees raise (catchesAll) and the
+// closure that does the catching - which runs after the recover, unprotected -
+// cannot itself raise a termination (looking through other safe catchers only).
+func (g *EffGraph) safeCatcher(fn *ssa.Function, visiting map[*ssa.Function]bool) bool {
+	if !catchesAll(fn) {
+		return false
+	}
+	if visiting[fn] {
+		return false // a catcher reached from its own handler protects nothing there
+	}
+	visiting[fn] = true
+	defer delete(visiting, fn)
+	for _, d := range deferredClosures(fn) {
+		if !hasRecover(d) {
+			continue
+		}
+		w, _, _ := g.reach(d, func(f *ssa.Function) bool { return f != d && g.safeCatcher(f, visiting) }, func(f *ssa.Function) (string, bool) {
+			if f != d && g.safeCatcher(f, visiting) {
+				return "", false
+			}
+			return g.ctePanicIn(f)
+		})
+		if w != "" {
+			return false
+		}
+	}
+	return true
+}
+
 func (g *EffGraph) goroutineEscapeObligations(scope func(string) bool) []*EffObl {
 	var out []*EffObl
 	n := 0
@@ -2967,8 +3010,8 @@ func (g *EffGraph) goroutineEscapeObligations(scope func(string) bool) []*EffObl
 				}
 				var bad []string
 				for _, h := range handlers {
-					w, ch, _ := g.reach(h, func(f *ssa.Function) bool { return catchesAll(f) }, func(f *ssa.Function) (string, bool) {
-						if f != h && catchesAll(f) {
+					w, ch, _ := g.reach(h, func(f *ssa.Function) bool { return g.safeCatcher(f, map[*ssa.Function]bool{}) }, func(f *ssa.Function) (string, bool) {
+						if f != h && g.safeCatcher(f, map[*ssa.Function]bool{}) {
 							return "", false
 						}
 						for _, b := range f.Blocks {
